@@ -533,7 +533,8 @@ func TestWorldDumpLoadAgainstModel(t *testing.T) {
 			}
 			sb.WriteString(strconv.FormatInt(v, 10))
 		}
-		want = append(want, sb.String())
+		// leading 1: the model evaluates the hypotheses of the world-level theorems (alive_okb) on the source state
+		want = append(want, "1 "+sb.String())
 		in.WriteString("-102\n")
 		for _, l := range append(append([][]int64{cfg.Line(), {int64(len(tlines))}}, tlines...), lines...) {
 			for i, v := range l {
